@@ -191,3 +191,23 @@ Theorem C11_translated_config_checks_agree :
                                     (Z.of_N (c_act c)) (Z.of_N (c_index c)) (Z.of_N (c_act lc)) (Z.of_N (c_index lc)))).
 Proof. split; [exact ensure_valid_agrees|exact check_config_agrees]. Qed.
 Print Assumptions C11_translated_config_checks_agree.
+
+(* The second tie for the vote bookkeeping: Voting.SetVote, AddVote, outcomeIndex and Outcome,
+   regenerated from app/voting.go on this run (Generated/VotingFuns.v), are the model's
+   functions - one vote per sender, equal candidates share an index, the first candidate index
+   with at least the required number of votes wins - so the quorum theorems above
+   (config_needs_quorum, one_vote_per_round, restart_only_newest_after_t_failures) speak
+   about the code as it is now. *)
+From Verif Require Import Generated.VotingFuns Proofs.VotingFuns.
+Theorem C11_translated_voting_agrees :
+  (forall (T : Type) (teqb : T -> T -> bool) v sender c,
+     gen_set_vote teqb v sender c = set_vote teqb v sender c /\
+     gen_add_vote teqb v sender c = add_vote teqb v sender c) /\
+  (forall (T : Type) (enum : enumerator) (v : voting T) req,
+     gen_outcome v (enum _ (v_votes v)) req = outcome enum v req).
+Proof.
+  split.
+  - intros T teqb v sender c. split; [apply gen_set_vote_agrees|apply gen_add_vote_agrees].
+  - intros T enum v req. apply gen_outcome_agrees.
+Qed.
+Print Assumptions C11_translated_voting_agrees.
